@@ -89,7 +89,7 @@ def wrap(kind, body):
         # the handler does real work: it must be metered like everything else
         return ("do local g<close> = setmetatable({},{__close=function(_,e) local n=0 for i=1,300 do n=n+i end emit('guard-closed',n) end}) %s end emit('after-scope')" % body)
     if kind == "close_work_pcall":
-        return ("local ok,e=pcall(function() local g<close> = setmetatable({},{__close=function(_,e) local n=0 for i=1,300 do n=n+i end emit('guard-closed',n) end}) %s end) emit('after-pcall',ok,type(e))" % body)
+        return ("local ok,e=pcall(function() local g<close> = setmetatable({},{__close=function(_,e) local n=0 for i=1,300 do n=n+i end emit('guard-closed',n) end}) %s end) emit('after-pcall',ok,e)" % body)
     if kind == "gc_guard":
         return ("setmetatable({},{__gc=function() emit('gc-ran') end}) %s collectgarbage() emit('after-gc')" % body)
     raise ValueError(kind)
